@@ -1,22 +1,39 @@
 """C02 — release dates are ordered, inside their span and evenly spaced.
 
 Correspondence: real `makrel.date_range` on dates of every accepted type / unit against the Lean integer
-model (`Dates.dateRange`: floor to whole seconds, truncating division, promotion to the finer unit).
-Oracle: every emitted string parses (`np.datetime64(s)`), first = start, last = stop to the whole second,
-even spacing, monotone; whole tables from `make_release` with interleaved groups are in non-decreasing
-date order; numpy's ISO rendering is strictly monotone on adversarial pairs (hypothesis of
+model (`Dates.dateRange`: floor to whole seconds, truncating division, promotion to the finer unit); the strings
+emitted at second resolution verbatim against the proved ISO renderer (`Dates.renderISO`).
+Oracle: every emitted value is one whitespace-free text field that parses the way LADiM parses it
+(`np.datetime64(s, 's')`), first = start, last = stop to the whole second, even spacing, monotone; whole tables
+from `make_release` (list / grouped / grouped + columns / flat / YAML stream, with and without an output file)
+with interleaved and colliding groups are in non-decreasing date order, every group's rows begin at its start,
+end at its stop and are evenly spaced, and the written file holds the same dates, in order, readable by LADiM's
+own release-file reader; numpy's ISO rendering is strictly monotone on adversarial pairs (hypothesis of
 `sorted_after_sort`)."""
 import datetime
 import numpy as np
 from .common import Driver, I
 
-RULE = ("date spans: single value or [start, stop]; ISO strings with ' ' or 'T', date / datetime objects, datetime64 with "
-        "units Y,M,W,D,h,m,s,ms,us,ns (also as the strings '2000', '2000-03'); spans zero, positive, reversed, sub-second, not divisible by num-1; num in {1,2,3,4,7,40}; "
-        "tables of 1..5 interleaved groups of mixed types. Non-trivial: num >= 1.")
-ASSUMPTIONS = ["numpy datetime64 parsing and ISO rendering are trusted (rendering monotonicity is validated on every run)"]
+RULE = ("date spans: single value or [start, stop] (list; also tuple, ndarray of datetime64 / of strings); ISO strings with ' ' or 'T', "
+        "date / datetime / pandas.Timestamp objects, datetime64 with "
+        "units Y,M,W,D,h,m,s,ms,us,ns (also as the strings '2000', '2000-03'); spans zero, positive, reversed, sub-second, not divisible by num-1, 30 years; "
+        "years 2000-2001 and 0001, 1600, 1960, 1969/1970 (negative epoch, half seconds), 2300, 9999; num in {1,2,3,4,7,40} and {1000, 20011}; "
+        "tables of 1..5 interleaved groups of mixed types, spread over 400 days or colliding on one or two instants "
+        "(offsets 0, 1 us, 0.25 s, 1 s, 12 h), up to ~300 rows, given as list / dict(groups) / dict(groups, columns) / flat dict / YAML stream "
+        "with native timestamps, with and without an output file. Non-trivial: num >= 1.")
+ASSUMPTIONS = ["numpy datetime64 parsing and ISO rendering are trusted (rendering monotonicity is validated on every run)",
+               "LADiM's release-file reader (ladim.release.load_release_file: whitespace-separated fields, np.datetime64(field, 's')) is "
+               "exercised, not modelled"]
 SITE = "ladim_plugins/release/makrel.py::date_range"
+MSITE = "ladim_plugins/release/makrel.py::make_release"
 UNITS = ["D", "h", "m", "s", "ms", "us", "Y", "M", "W", "ns"]
 TICKS = {"D": None, "h": None, "m": None, "s": 1, "ms": 1000, "us": 1000000}
+# instants far from 2000: before the epoch (floor vs truncation of negative ticks), outside the range of
+# nanosecond timestamps (1678..2262), first and last four-digit years
+FAR = ["0001-06-01T00:00:00", "1600-02-29T12:00:00", "1960-03-01T06:30:00", "1969-12-31T23:59:59.500000",
+       "1970-01-01T00:00:00", "2300-01-01T00:00:00", "9999-06-01T00:00:00"]
+SPANS_US = [0, 1000000, 10000000, 7000000, 9750000, 86400000000, 3600000000, 999999, 123456789, 31 * 86400000000]
+LO, HI = -62167219200, 253402300799          # seconds of 0000-01-01T00:00:00 and 9999-12-31T23:59:59
 
 
 def mk_date(rng, base, unit, kind):
@@ -33,23 +50,53 @@ def mk_date(rng, base, unit, kind):
         dd = d.astype("datetime64[D]").astype(object)
         return dd, np.datetime64(dd)
     dd = d.astype("datetime64[us]").astype(object)
+    if kind == "timestamp":
+        import pandas as pd
+        return pd.Timestamp(dd), np.datetime64(dd)      # a datetime subclass; numpy reads it as a datetime (microseconds)
     return dd, np.datetime64(dd)
 
 
-def gen_span(rng):
-    base = np.datetime64("2000-01-01T00:00:00", "us") + np.timedelta64(rng.randrange(0, 400 * 86400), "s") \
-        + np.timedelta64(rng.choice([0, 0, 250000, 999999, 500]), "us")
-    span_us = rng.choice([0, 1000000, 10000000, 7000000, 9750000, 86400000000, 3600000000, 999999, 123456789, 31 * 86400000000])
-    if rng.random() < 0.3:
-        span_us = -span_us
+def _year(base):
+    return int(np.datetime64(base, "Y").astype("int64")) + 1970
+
+
+def gen_span(rng, base=None, wide=False, span_us=None, kinds=None):
+    """base None: an instant in 2000-2001 (the original generator). wide: also tuple / ndarray containers and
+    pandas.Timestamp objects."""
+    if base is None:
+        base = np.datetime64("2000-01-01T00:00:00", "us") + np.timedelta64(rng.randrange(0, 400 * 86400), "s") \
+            + np.timedelta64(rng.choice([0, 0, 250000, 999999, 500]), "us")
+    if span_us is None:
+        span_us = rng.choice(SPANS_US)
+        if rng.random() < 0.3:
+            span_us = -span_us
     single = rng.random() < 0.2
-    u1 = rng.choice(UNITS); u2 = rng.choice(UNITS)
-    k1 = rng.choice(["np", "str", "date", "datetime"]); k2 = rng.choice(["np", "str", "date", "datetime"])
+    # nanosecond timestamps exist only for 1678..2262: outside, the finest unit generated is the microsecond
+    units = UNITS if 1700 <= _year(base) <= 2200 else [u if u != "ns" else "us" for u in UNITS]
+    if kinds is None:
+        kinds = ["np", "str", "date", "datetime"] + (["timestamp"] if wide else [])
+    u1 = rng.choice(units); u2 = rng.choice(units)
+    k1 = rng.choice(kinds); k2 = rng.choice(kinds)
+    if wide and rng.random() < 0.15:        # a homogeneous pair, which can be an ndarray
+        k1 = k2 = rng.choice(["np", "str"])
     a, na = mk_date(rng, base, u1, k1)
     if single:
         return a, na, na
     b, nb = mk_date(rng, base + np.timedelta64(span_us, "us"), u2, k2)
+    if wide:
+        r = rng.random()
+        if r < 0.25:
+            return (a, b), na, nb
+        if r < 0.7 and k1 == k2 == "np":
+            arr = np.array([a, b])              # numpy promotes both to the finer unit: that is the input now
+            return arr, arr[0], arr[1]
+        if r < 0.7 and k1 == k2 == "str":
+            return np.array([a, b]), na, nb
     return [a, b], na, nb
+
+
+def is_pair(span):
+    return isinstance(span, (list, tuple, np.ndarray))
 
 
 def to_ticks(na, nb):
@@ -64,79 +111,300 @@ def to_ticks(na, nb):
     return per, sa, sb, fin, fin_a
 
 
+def one_text_field(s):
+    """LADiM reads the release file as whitespace-separated text (pandas sep='\\s+') and converts the date field
+    with np.datetime64(field, 's'): an emitted date must be a string without white space."""
+    return isinstance(s, str) and s != "" and len(s.split()) == 1 and s == s.strip()
+
+
+def judge(ctx, pfx, site, out, na, nb, num, cs):
+    """the clauses of the statement on the `num` dates of one group, in the order start -> stop.
+    returns (ticks, per, sa, sb, fin_a) or None if a date does not parse"""
+    parsed = []
+    ok = True
+    for s in out:
+        try:
+            t = np.datetime64(s)
+            bad = bool(np.isnat(t))
+        except Exception:
+            bad = True; t = None
+        if bad:
+            ok = False
+        parsed.append(t)
+    ctx.oracle(ok, pfx + ".invalid_timestamp", site, "emitted %r" % (out[:3],), cs)
+    ctx.oracle(all(one_text_field(s) for s in out), pfx + ".not_one_text_field", site,
+               "a date is not a white-space-free string (LADiM splits the release file at white space): %r" % (out[:3],), cs)
+    if not ok or num == 0:
+        return None
+    per, sa, sb, fin, fin_a = to_ticks(na, nb)
+    tick = [int(t.astype("datetime64[%s]" % fin).astype("int64")) for t in parsed]
+    dt = (sb - sa) // per          # floor to whole seconds
+    # the way LADiM converts the field: np.datetime64(item, 's') -> whole seconds (floor)
+    try:
+        lad = [int(np.datetime64(s, "s").astype("int64")) for s in out]
+        ctx.oracle(lad == [t // per for t in tick], pfx + ".ladim_parse", site,
+                   "LADiM's converter np.datetime64(s,'s') reads %r as %r" % (out[:3], lad[:3]), cs)
+    except Exception as e:
+        ctx.oracle(False, pfx + ".ladim_parse", site, "LADiM's converter np.datetime64(s,'s') raised %r on %r" % (e, out[:3]), cs)
+    if len(tick) != num:
+        return tick, per, sa, sb, fin_a
+    ctx.oracle(tick[0] == sa, pfx + ".first_is_start", site, "first %r, start %r" % (out[0], str(na)), cs)
+    if num >= 2:
+        ctx.oracle(tick[-1] == sa + dt * per and abs(tick[-1] - sb) < per, pfx + ".last_is_stop", site,
+                   "last %r, stop %r" % (out[-1], str(nb)), cs)
+        bad_i = None
+        for i in range(num):
+            # |tick_i - (sa + per*i*dt/(num-1))| < per, evaluated exactly in integers (floats lose the microseconds of
+            # ticks beyond 2**53, e.g. year 9999 in microseconds)
+            if not abs(tick[i] * (num - 1) - (sa * (num - 1) + per * i * dt)) < per * (num - 1):
+                bad_i = i
+                break
+        ctx.oracle(bad_i is None, pfx + ".even_spacing", site,
+                   "particle %r at %r, exact offset %r s" % (bad_i, out[bad_i or 0], (bad_i or 0) * dt / (num - 1)), cs)
+        d = np.diff(np.array(tick, dtype=object))
+        ctx.oracle(all(x >= 0 for x in d) if dt >= 0 else all(x <= 0 for x in d), pfx + ".monotone", site, "not monotone: %r" % out[:5], cs)
+    if dt == 0:
+        ctx.oracle(all(t == sa for t in tick), pfx + ".zero_span", site, "zero span but dates differ", cs)
+    return tick, per, sa, sb, fin_a
+
+
+def range_case(ctx, mk, drv, pend, rpend, span, na, nb, num, cs, corr=True):
+    try:
+        out = mk.date_range(span, num)
+    except Exception as e:
+        ctx.oracle(False, "C02.date_range.raises", SITE, "date_range(%r, %d) raised %r" % (span, num, e), cs)
+        return
+    ctx.oracle(len(out) == num, "C02.date_range.count", SITE, "%d dates for num=%d" % (len(out), num), cs)
+    r = judge(ctx, "C02.date_range", SITE, out, na, nb, num, cs)
+    if r is None:
+        return
+    tick, per, sa, sb, fin_a = r
+    if drv.available and corr:
+        pend.append((drv.ask("dates.range", I(per), I(sa), I(sb), I(num)), tick, cs))
+        # dates emitted at second resolution: the very strings against the proved renderer
+        if fin_a == "s" and num <= 40 and all(t % per == 0 and LO <= t // per <= HI for t in tick) and all(isinstance(s, str) for s in out):
+            ctx.branch("emitted_iso")
+            rpend.append((drv.ask("dates.render", I(len(tick)), " ".join(I(t // per) for t in tick)), list(out), cs, "emitted_iso"))
+
+
+def yamlable(groups):
+    for g in groups:
+        d = g["date"]
+        if isinstance(d, list):
+            if not all(type(x) in (str, datetime.date, datetime.datetime) for x in d):
+                return False
+        elif type(d) not in (str, datetime.date, datetime.datetime):
+            return False
+    return True
+
+
+def gen_table(rng, mode):
+    """returns (groups, meta): meta[g] = (na, nb, num)"""
+    groups = []; meta = []
+    if mode == "spread":
+        ng = rng.randrange(1, 6)
+        bases = [None] * ng
+        nums = [rng.choice([1, 2, 3, 5]) for _ in range(ng)]
+    elif mode == "one":         # a single group (also in the flat form), often with a reversed span
+        bases = [None if rng.random() < 0.5 else np.datetime64(rng.choice(FAR), "us") + np.timedelta64(rng.choice([0, 1, 43200]), "s")]
+        nums = [rng.choice([1, 2, 3, 5, 40])]
+    else:
+        # groups on one or two instants: equal seconds in different units / types, sub-second and second neighbours,
+        # the same day twelve hours apart (string order vs. time order of the rendered dates)
+        if mode == "far":
+            p0 = np.datetime64(rng.choice(FAR), "us") + np.timedelta64(rng.choice([0, 0, 1, 86399, 43200]), "s")
+        else:
+            p0 = np.datetime64("2000-01-01T00:00:00", "us") + np.timedelta64(rng.randrange(0, 400 * 86400), "s") \
+                + np.timedelta64(rng.choice([0, 0, 250000, 999999, 500]), "us")
+        pool = [p0, p0 + np.timedelta64(rng.choice([1, 250000, 1000000, 43200000000, 86400000000, 59000000]), "us")]
+        if mode == "big":
+            ng = rng.randrange(2, 4); nums = [rng.choice([40, 100]) for _ in range(ng)]
+        else:
+            ng = rng.randrange(2, 6); nums = [rng.choice([1, 2, 3, 5]) for _ in range(ng)]
+        bases = [rng.choice(pool) + np.timedelta64(rng.choice([0, 0, 0, 1, 250000, 1000000, -1000000, 43200000000]), "us") for _ in range(ng)]
+    # a quarter of the tables can be written as YAML (strings, date and datetime objects only)
+    kinds = ["str", "date", "datetime"] if rng.random() < 0.25 else None
+    for g in range(len(bases)):
+        span, na, nb = gen_span(rng, base=bases[g], wide=(mode != "spread" and kinds is None), kinds=kinds)
+        groups.append(dict(date=span, num=nums[g], location=[5.0, 60.0], depth=0, grp=g + 1))
+        meta.append((na, nb, nums[g]))
+    return groups, meta
+
+
+def table_case(ctx, mk, groups, meta, form, fname, cs):
+    import io
+    cols = None
+    if form == "list":
+        conf = [dict(g) for g in groups]
+    elif form == "grouped":
+        conf = dict(groups=[dict(g) for g in groups])
+    elif form == "columns":
+        cols = ["date", "longitude", "latitude", "depth", "grp"]
+        ctx.rng.shuffle(cols)
+        if ctx.rng.random() < 0.5:
+            drop = ctx.rng.choice(["longitude", "latitude", "depth"])
+            cols = [c for c in cols if c != drop]
+        conf = dict(groups=[dict(g) for g in groups], columns=list(cols))
+        cs = dict(cs, columns=list(cols))
+    elif form == "flat":
+        conf = dict(groups[0])
+    else:
+        import yaml
+        text = yaml.safe_dump(dict(groups=[dict(g) for g in groups]), sort_keys=False)   # date / datetime become native YAML timestamps
+        conf = io.StringIO(text)
+        cs = dict(cs, yaml=text)
+    try:
+        res = mk.make_release(conf, fname) if fname else mk.make_release(conf)
+    except Exception as e:
+        ctx.oracle(False, "C02.make_release.raises", MSITE, "raised %r" % (e,), cs)
+        return
+    dates = list(res["date"])
+    try:
+        ts = [np.datetime64(s, "us") for s in dates]
+        ok = not any(np.isnat(t) for t in ts)
+    except Exception:
+        ok = False
+    ctx.oracle(ok, "C02.make_release.invalid_timestamp", MSITE, "dates %r" % (dates[:4],), cs)
+    if ok:
+        v = np.array([t.astype("int64") for t in ts])
+        ctx.oracle(bool(np.all(np.diff(v) >= 0)), "C02.make_release.not_sorted", MSITE,
+                   "rows not in non-decreasing date order: %r" % (dates[:60],), cs)
+    ctx.oracle(all(one_text_field(s) for s in dates), "C02.make_release.not_one_text_field", MSITE,
+               "a date of the table is not a white-space-free string: %r" % (dates[:4],), cs)
+    # every group through make_release: begins at its first date, ends at its second, evenly spaced
+    grp = list(res.get("grp", []))
+    ctx.oracle(len(grp) == len(dates) == sum(m[2] for m in meta), "C02.make_release.row_count", MSITE,
+               "%d rows for %d particles" % (len(dates), sum(m[2] for m in meta)), cs)
+    for g, (na, nb, num) in enumerate(meta):
+        rows = [dates[r] for r in range(min(len(grp), len(dates))) if grp[r] == g + 1]
+        gcs = dict(cs, group=g)
+        ctx.oracle(len(rows) == num, "C02.make_release.group.count", MSITE, "group %d has %d rows for num=%d" % (g, len(rows), num), gcs)
+        per, sa, sb, fin, fin_a = to_ticks(na, nb)
+        dt = (sb - sa) // per
+        if dt < 0:
+            rows = rows[::-1]      # the table is ascending; a reversed span was emitted descending
+        judge(ctx, "C02.make_release.group", MSITE, rows, na, nb, num, gcs)
+    if not fname:
+        return
+    # ---- the written file: first column (or the column selected as 'date')
+    FS = MSITE + " (file)"
+    hdr = list(res.keys())
+    di = hdr.index("date")
+    with open(fname, encoding="utf8") as f:
+        text = f.read()
+    lines = [l for l in text.split("\n") if l.strip() != ""]
+    ctx.oracle(len(lines) == len(dates), "C02.file.row_count", FS, "file has %d lines for %d rows" % (len(lines), len(dates)), cs)
+    fields = [l.split() for l in lines]            # the way LADiM splits (sep='\s+')
+    okf = all(len(f_) == len(hdr) for f_ in fields)
+    ctx.oracle(okf, "C02.file.field_count", FS, "a line does not have %d white-space separated fields: %r" % (len(hdr), lines[:2]), cs)
+    if okf and len(lines) == len(dates):
+        fd = [f_[di] for f_ in fields]
+        ctx.oracle(fd == [str(s) for s in dates] and all(isinstance(s, str) for s in dates), "C02.file.date_differs_from_table", FS,
+                   "file dates %r, table dates %r" % (fd[:4], dates[:4]), cs)
+        try:
+            fv = [np.datetime64(s, "us") for s in fd]
+            okp = not any(np.isnat(t) for t in fv)
+        except Exception:
+            okp = False
+        ctx.oracle(okp, "C02.file.invalid_timestamp", FS, "file dates %r" % (fd[:4],), cs)
+        if okp:
+            ctx.oracle(bool(np.all(np.diff(np.array([t.astype("int64") for t in fv])) >= 0)), "C02.file.not_sorted", FS,
+                       "lines not in non-decreasing date order: %r" % (fd[:60],), cs)
+    # LADiM's own reader
+    import ladim.release as lr
+    names = ["release_time" if h == "date" else h for h in hdr]
+    try:
+        df = lr.load_release_file(io.StringIO(text), names, {})
+        got = sorted(int(x) for x in df["release_time"])
+    except Exception as e:
+        ctx.oracle(False, "C02.file.ladim_cannot_read", FS, "ladim.release.load_release_file raised %r on %r" % (e, lines[:2]), cs)
+        return
+    if ok:
+        # LADiM keeps whole seconds (np.datetime64(field, 's')): the table's dates (judged above, group by group), floored
+        expect_sec = sorted(int(np.datetime64(s).astype("datetime64[s]").astype("int64")) for s in dates)
+        ctx.oracle(got == expect_sec, "C02.file.ladim_reads_other_times", FS,
+                   "LADiM reads release times %r, the table's release times are %r" % (got[:6], expect_sec[:6]), cs)
+
+
 def run(ctx):
-    import importlib
+    import importlib, tempfile, shutil, os, warnings
     mk = importlib.import_module("ladim_plugins.release.makrel")
     drv = Driver()
     if getattr(ctx, "widened", False):
         drv.available = False
     pend = []
+    rpend = []
     for c in range(ctx.n(600, 10000)):
         span, na, nb = gen_span(ctx.rng)
         num = ctx.rng.choice([1, 1, 2, 3, 4, 7, 40])
         cs = dict(date=repr(span), num=num)
         ctx.case(key=(repr(span), num), nontrivial=True, sample=cs if c < 2 else None)
-        ctx.branch("num=%d" % min(num, 5)); ctx.branch("single" if not isinstance(span, list) else "pair")
-        try:
-            out = mk.date_range(span, num)
-        except Exception as e:
-            ctx.oracle(False, "C02.date_range.raises", SITE, "date_range(%r, %d) raised %r" % (span, num, e), cs)
-            continue
-        ctx.oracle(len(out) == num, "C02.date_range.count", SITE, "%d dates for num=%d" % (len(out), num), cs)
-        parsed = []
-        ok = True
-        for s in out:
-            try:
-                t = np.datetime64(s)
-                bad = np.isnat(t)
-            except Exception:
-                bad = True; t = None
-            if bad:
-                ok = False
-            parsed.append(t)
-        ctx.oracle(ok, "C02.date_range.invalid_timestamp", SITE, "emitted %r" % (out[:3],), cs)
-        if not ok or num == 0:
-            continue
-        per, sa, sb, fin, fin_a = to_ticks(na, nb)
-        tick = [int(t.astype("datetime64[%s]" % fin).astype("int64")) for t in parsed]
-        dt = (sb - sa) // per          # floor to whole seconds
-        ctx.oracle(tick[0] == sa, "C02.date_range.first_is_start", SITE, "first %r, start %r" % (out[0], str(na)), cs)
-        if num >= 2:
-            ctx.oracle(tick[-1] == sa + dt * per and abs(tick[-1] - sb) < per, "C02.date_range.last_is_stop", SITE,
-                       "last %r, stop %r" % (out[-1], str(nb)), cs)
-            for i in range(num):
-                exact = sa + per * (i * dt) / (num - 1)
-                ctx.oracle(abs(tick[i] - exact) < per, "C02.date_range.even_spacing", SITE,
-                           "particle %d at %r, exact offset %r s" % (i, out[i], i * dt / (num - 1)), cs)
-            d = np.diff(tick)
-            ctx.oracle(bool(np.all(d >= 0)) if dt >= 0 else bool(np.all(d <= 0)), "C02.date_range.monotone", SITE, "not monotone: %r" % out[:5], cs)
-        if dt == 0:
-            ctx.oracle(all(t == sa for t in tick), "C02.date_range.zero_span", SITE, "zero span but dates differ", cs)
-        if drv.available:
-            pend.append((drv.ask("dates.range", I(per), I(sa), I(sb), I(num)), tick, cs))
-    # whole tables: sortedness with interleaved groups
-    for c in range(ctx.n(80, 1500)):
-        groups = []
-        for g in range(ctx.rng.randrange(1, 6)):
-            span, na, nb = gen_span(ctx.rng)
-            groups.append(dict(date=span, num=ctx.rng.choice([1, 2, 3, 5]), location=[5.0, 60.0], depth=0))
-        cs = dict(groups=[dict(date=repr(g["date"]), num=g["num"]) for g in groups])
-        ctx.case(key=("table", repr(cs)), nontrivial=True); ctx.branch("table")
-        try:
-            res = mk.make_release(groups)
-        except Exception as e:
-            ctx.oracle(False, "C02.make_release.raises", "ladim_plugins/release/makrel.py::make_release", "raised %r" % (e,), cs)
-            continue
-        try:
-            ts = [np.datetime64(s, "us") for s in res["date"]]
-            ok = not any(np.isnat(t) for t in ts)
-        except Exception:
-            ok = False
-        ctx.oracle(ok, "C02.make_release.invalid_timestamp", "ladim_plugins/release/makrel.py::make_release", "dates %r" % (res["date"][:4],), cs)
-        if ok:
-            v = np.array([t.astype("int64") for t in ts])
-            ctx.oracle(bool(np.all(np.diff(v) >= 0)), "C02.make_release.not_sorted", "ladim_plugins/release/makrel.py::make_release",
-                       "rows not in non-decreasing date order: %r" % (res["date"],), cs)
+        ctx.branch("num=%d" % min(num, 5)); ctx.branch("single" if not is_pair(span) else "pair")
+        range_case(ctx, mk, drv, pend, rpend, span, na, nb, num, cs)
+    # far years (negative epoch, outside the nanosecond range), other containers, pandas.Timestamp
+    for c in range(ctx.n(300, 5000)):
+        far = ctx.rng.random() < 0.6
+        base = None
+        if far:
+            base = np.datetime64(ctx.rng.choice(FAR), "us") + np.timedelta64(ctx.rng.choice([0, 0, 1, 86399, 43200, 12345]), "s") \
+                + np.timedelta64(ctx.rng.choice([0, 0, 250000, 999999, 500000]), "us")
+        span, na, nb = gen_span(ctx.rng, base=base, wide=True)
+        num = ctx.rng.choice([1, 1, 2, 3, 4, 7, 40])
+        cs = dict(date=repr(span), num=num)
+        ctx.case(key=("wide", repr(span), num), nontrivial=True)
+        ctx.branch("far_year" if far else "near_year"); ctx.branch("container=%s" % type(span).__name__ if is_pair(span) else "single=%s" % type(span).__name__)
+        if far:
+            ctx.branch("year=%d" % _year(base))
+        range_case(ctx, mk, drv, pend, rpend, span, na, nb, num, cs)
+    # many particles, long spans (30 years), spans much shorter than the number of particles
+    for c in range(ctx.n(6, 60)):
+        num = [1000, 20011][c % 2]
+        y30 = 30 * 365 * 86400 * 1000000 + 7 * 86400 * 1000000
+        span_us = ctx.rng.choice([y30, -y30, y30 + 123456789, 7000000, 123456789, -9750000])
+        base = np.datetime64(ctx.rng.choice(["2000-01-01T00:00:00", "1960-03-01T06:30:00", "9950-01-01T00:00:00", "0040-06-01T00:00:00"]), "us") \
+            + np.timedelta64(ctx.rng.choice([0, 250000]), "us")
+        while True:
+            span, na, nb = gen_span(ctx.rng, base=base, wide=True, span_us=span_us)
+            if is_pair(span):
+                break
+        cs = dict(date=repr(span), num=num)
+        ctx.case(key=("many", repr(span), num), nontrivial=True); ctx.branch("num=%d" % num)
+        range_case(ctx, mk, drv, pend, rpend, span, na, nb, num, cs, corr=(num <= 1000))
+    # whole tables: sortedness with interleaved / colliding groups, every group's endpoints, the written file
+    tmp = tempfile.mkdtemp(prefix="verif_c02_")
+    try:
+        nt = ctx.n(240, 4000)
+        nbig = ctx.n(6, 60)
+        for c in range(nt + nbig):
+            if c >= nt:
+                mode = "big"
+            else:
+                mode = ctx.rng.choice(["spread", "spread", "collide", "collide", "collide", "far", "one"])
+            groups, meta = gen_table(ctx.rng, mode)
+            forms = ["list", "list", "grouped", "columns"]
+            if len(groups) == 1:
+                forms += ["flat"] * 4
+            if yamlable(groups):
+                forms += ["yaml"] * 4
+            form = ctx.rng.choice(forms)
+            fname = os.path.join(tmp, "t%d.rls" % c) if ctx.rng.random() < 0.5 else None
+            cs = dict(groups=[dict(date=repr(g["date"]), num=g["num"]) for g in groups], form=form, file=bool(fname))
+            ctx.case(key=("table", repr(cs)), nontrivial=True); ctx.branch("table"); ctx.branch("table_" + mode); ctx.branch("form=" + form)
+            if fname:
+                ctx.branch("table_file")
+            ctx.size("table_rows", sum(m[2] for m in meta))
+            # equal seconds in two groups (possibly rendered in different units)
+            secs = [set([int(m[0].astype("datetime64[s]").astype("int64")), int(m[1].astype("datetime64[s]").astype("int64"))]) for m in meta]
+            if any(secs[i] & secs[j] for i in range(len(secs)) for j in range(i + 1, len(secs))):
+                ctx.branch("table_groups_share_a_second")
+            days = [set([str(m[0].astype("datetime64[D]")), str(m[1].astype("datetime64[D]"))]) for m in meta]
+            if any(days[i] & days[j] for i in range(len(days)) for j in range(i + 1, len(days))):
+                ctx.branch("table_groups_share_a_day")
+            table_case(ctx, mk, groups, meta, form, fname, cs)
+            if fname and os.path.exists(fname):
+                os.remove(fname)
+    finally:
+        shutil.rmtree(tmp, ignore_errors=True)
     # hypothesis of sorted_after_sort: rendering strictly monotone on adversarial pairs of (possibly mixed-unit) times
     for c in range(ctx.n(400, 5000)):
         base = np.datetime64("1999-12-31T23:59:59", "us") + np.timedelta64(ctx.rng.randrange(0, 3 * 86400 * 366), "s")
@@ -149,9 +417,7 @@ def run(ctx):
         ctx.case(key=("render", str(a), str(b)), nontrivial=True); ctx.branch("render_pair")
         ctx.oracle(str(a) < str(b), "C02.render.not_monotone", "numpy datetime64 rendering", "%s !< %s" % (a, b), dict(a=str(a), b=str(b)))
     # the proved ISO renderer (Ladim.Dates.renderISO, theorem C02.renderISO_strictMono) against numpy's
-    rpend = []
     if drv.available:
-        LO, HI = -62167219200, 253402300799
         for c in range(ctx.n(60, 1500)):
             k = ctx.rng.randrange(6)
             if k == 0: base = ctx.rng.choice([LO, HI, 0, -1, 951825600, -62135596800, 4107542400, 68169600])
@@ -164,16 +430,16 @@ def run(ctx):
             ts = [min(HI, max(LO, base + d)) for d in (0, 1, 59, 60, 3600, 86400, -1)]
             want = [str(np.datetime64(t, "s")) for t in ts]
             ctx.case(key=("iso", base), nontrivial=True); ctx.branch("iso_render")
-            rpend.append((drv.ask("dates.render", I(len(ts)), " ".join(I(t) for t in ts)), want, dict(times=ts)))
+            rpend.append((drv.ask("dates.render", I(len(ts)), " ".join(I(t) for t in ts)), want, dict(times=ts), "iso_render"))
     if drv.available:
         rep = drv.run()
         for j, tick, cs in pend:
             st, t = rep[j]
             model = [None if x == "NaT" else int(x) for x in t[1:]]
             ctx.eq("date_range", tick, model, cs)
-        for j, want, cs in rpend:
+        for j, want, cs, what in rpend:
             st, t = rep[j]
-            ctx.eq("iso_render", want, list(t[1:]), cs)
+            ctx.eq(what, want, list(t[1:]), cs)
 
 
 def replay(payload):
